@@ -352,6 +352,113 @@ def _l2(model, rep):
        f"result or keeps a stale local_shape ({kw})", add.lineno)
 
 
+def _tolocal_facets(model, rep):
+    """tolocal(basis=<facet basis>): the matrix of facet f is expressed in
+    the local DOFs of the cell basis.tind[f] - it belongs to that cell and
+    to no other, and several facets of one cell add up.  Symbolic run with a
+    recording buffer."""
+    L2 = "C19-L2"
+    ccls = model.cls(CO, "COOData")
+    tl = ccls.methods["tolocal"]
+    log = []
+
+    class ZB:
+        skv_isarray = True
+
+        def __init__(self, shape, dtype):
+            self.shape0, self.dtype = shape, dtype
+
+        def skv_setitem(self, ix, v):
+            log.append(("store", ix, v))
+
+        def skv_getitem(self, ix):
+            log.append(("gather", ix))
+            return Gat(ix)
+
+    class Gat:
+        """entries of the buffer gathered at an index array"""
+        skv_isarray = True
+
+        def __init__(self, ix):
+            self.ix = ix
+
+        def skv_binop(self, op, other, reflected):
+            return Gat(self.ix)
+
+        def __eq__(self, o):
+            return isinstance(o, Gat) and o.ix == self.ix
+
+        def __hash__(self):
+            return hash(("gat", str(self.ix)))
+
+    def hook(interp, name, args, kwargs, node):
+        r = _ax_hook(interp, name, args, kwargs, node)
+        if r is not NotImplemented:
+            return r
+        if name == "numpy.zeros":
+            return ZB(args[0], kwargs.get("dtype"))
+        if name == "numpy.add.at":
+            log.append(("accumulate", args[0], args[1], args[2]))
+            return None
+        if name == "numpy.sum":
+            return ("sum", args[0], kwargs.get("axis"))
+        return NotImplemented
+
+    class Loc(AxArr):
+        def skv_getattr(self, name):
+            if name == "dtype":
+                return "LOCAL-DTYPE"
+            return super().skv_getattr(name)
+    flat = AxArr((("i", "j", "c"),))
+    lshape = (Poly.sym("n_i"), Poly.sym("n_j"))
+    obj = Obj(ccls, {"data": flat, "local_shape": lshape,
+                     "indices": "IDX", "shape": ("R", "C")})
+    basis = Obj(None, {"mesh": Obj(None, {"nfacets": Poly.sym("nfacets"),
+                                          "nelements": Poly.sym("ncells"),
+                                          "t2f": "T2F"}),
+                       "find": "FIND", "tind": "TIND"})
+    it = Interp(model, call_hook=hook)
+    orig_get = AxArr.skv_getattr
+
+    def patched(self, name):
+        if name == "dtype":
+            return "LOCAL-DTYPE"
+        return orig_get(self, name)
+    AxArr.skv_getattr = patched
+    try:
+        r = it.call(tl, [basis], {}, self_obj=obj)
+    except (Unsupported, Raised) as e:
+        raise AnalysisError(f"COOData.tolocal(basis): {e}")
+    finally:
+        AxArr.skv_getattr = orig_get
+    acc = [e for e in log if e[0] == "accumulate"]
+    sto = [e for e in log if e[0] == "store"]
+    ok = (isinstance(r, ZB) and len(acc) == 1 and not sto
+          and acc[0][1] is r and acc[0][2] == "TIND"
+          and isinstance(acc[0][3], AxArr)
+          and acc[0][3].axes == ("c", "i", "j")
+          and Poly.coerce(r.shape0[0]) == Poly.sym("ncells")
+          and r.dtype == "LOCAL-DTYPE")
+    why = []
+    if sto and sto[0][1] == "TIND":
+        why.append("facet matrices are *stored* at basis.tind (of several "
+                   "facets of one cell the last wins)")
+    elif sto:
+        why.append(f"facet matrices are scattered to {sto[0][1]!r}")
+    if any(e[0] == "gather" and e[1] == "T2F" for e in log):
+        why.append("then gathered through t2f, which hands the matrix of an "
+                   "interior facet to BOTH neighbouring cells although it "
+                   "is written in the local DOFs of basis.tind only")
+    if isinstance(r, ZB) and r.dtype != "LOCAL-DTYPE":
+        why.append(f"buffer dtype {r.dtype!r} (complex data dropped)")
+    _v(rep, L2, ok, "COOData.tolocal[basis]:owner-cell",
+       "facet matrices are accumulated (np.add.at) at their owner cells "
+       "basis.tind in a buffer with one slot per cell and the dtype of the "
+       "data", FCO, "COOData.tolocal",
+       "tolocal(basis): " + ("; ".join(why) or f"returns {r!r} after {log}"),
+       tl.lineno)
+
+
 def _l3(model, rep):
     L3 = "C19-L3"
     # numbering order per block from the symbolic Dofs run
@@ -774,6 +881,7 @@ def run(model: Model, rep, tier: str) -> None:
              "everywhere")
     rep.rule("C19-L6", "asm zips products over the same lists")
     staged(lambda: _l1(model, rep), lambda: _l2(model, rep),
+           lambda: _tolocal_facets(model, rep),
            lambda: _l3(model, rep), lambda: _l4(model, rep),
            lambda: _composite_padding(model, rep),
            lambda: _l5(model, rep), lambda: _l6(model, rep))
@@ -795,6 +903,19 @@ _LOCS = """            self.doflocs = np.array([
 _AS = "skfem/assembly/__init__.py"
 _ADI = "skfem/autodiff/__init__.py"
 MUTANTS = [
+    ("tolocal adds facet matrices with a fancy-index +=",
+     ("skfem/assembly/form/coo_data.py",
+      "            np.add.at(out, basis.tind, local)",
+      "            out[basis.tind] += local"), "C19-L2"),
+    ("tolocal gathers facet matrices through t2f again",
+     ("skfem/assembly/form/coo_data.py",
+      "            out = np.zeros((basis.mesh.nelements,) + local.shape[1:],\n"
+      "                           dtype=local.dtype)\n"
+      "            np.add.at(out, basis.tind, local)\n"
+      "            local = out\n",
+      "            out = np.zeros((basis.mesh.nfacets,) + local.shape[1:])\n"
+      "            out[basis.find] = local\n"
+      "            local = np.sum(out[basis.mesh.t2f], axis=0)\n"), "C19-L2"),
     ("composite basis pads with zeros of the active component",
      ("skfem/assembly/basis/composite_basis.py",
       "                            tmp.append(self.bases[k].basis[0][0].zeros())",
